@@ -90,4 +90,53 @@ theorem vpoolRunFrom_replicate (t : Transport) (m p d : Nat) (hk : keeps t = tru
     congr 1
     omega
 
+/-- two transports that treat every flight of a run alike give the same run -/
+theorem tconnRunFrom_congr (t t' : Transport) (fs : List TFlight)
+    (h : ∀ f ∈ fs, ∀ st, tconnStep t st f = tconnStep t' st f) (st : List Bool × Nat) :
+    tconnRunFrom t st fs = tconnRunFrom t' st fs := by
+  induction fs generalizing st with
+  | nil => rfl
+  | cons f fs ih =>
+    rw [tconnRunFrom_cons, tconnRunFrom_cons, h f List.mem_cons_self st]
+    exact ih (fun f' h' => h f' (List.mem_cons_of_mem _ h')) _
+
+/-- the first volley on a fresh transport: every request dials, the pool keeps what it has room for -/
+theorem vpoolStep_first (t : Transport) (m p d : Nat) (hk : keeps t = true) (hpos : 0 < m)
+    (hl : responseLost t d = false) :
+    vpoolStep t (0, 0) { k := m, closing := 0, pause := p, delay := d } = (min (idleLimit t) m, m) := by
+  have hm0 : m ≠ 0 := by omega
+  simp only [vpoolStep, hl, hk, hm0, if_false, Bool.not_false, Bool.and_self, if_true, Nat.sub_zero]
+  cases idleExpired t p <;> simp
+
+/-! ### `[k: v]` lines -/
+
+theorem cut_append (k rest : Str) (sep : Nat) (h : sep ∉ k) : cut (k ++ sep :: rest) sep = some (k, rest) := by
+  induction k with
+  | nil => simp [cut]
+  | cons a t ih =>
+    have ha : a ≠ sep := by intro e; exact h (by simp [e])
+    have ht : sep ∉ t := by intro m; exact h (List.mem_cons_of_mem _ m)
+    simp [cut, ha, ih ht]
+
+theorem trim_bracketed (xs : Str) : trim (91 :: xs ++ [93]) = 91 :: xs ++ [93] := by
+  have h1 : isSpace 91 = false := by decide
+  have h2 : isSpace 93 = false := by decide
+  simp [trim, trimBy, h1, h2]
+
+/-- what util.DecodeHeader makes of the line `[k:v]` as readLine / readBlock see it -/
+theorem decodeHeader_headerLine (k v : Str) (hc : 58 ∉ k) (hk : trim k ≠ []) :
+    decodeHeader (headerLine (k, v)) = .ok (trim k, trim v) := by
+  have hl : headerLine (k, v) = 91 :: (k ++ 58 :: v) ++ [93] := by
+    have := trim_bracketed (k ++ 58 :: v)
+    simpa [headerLine] using this
+  have hlen : ¬ ((91 :: (k ++ 58 :: v) ++ [93]).length < 3) := by simp; omega
+  have hlast : (91 :: (k ++ 58 :: v) ++ [93]).getLast? = some 93 := by
+    rw [show (91 :: (k ++ 58 :: v) ++ [93]) = (91 :: (k ++ 58 :: v)) ++ [93] from rfl, List.getLast?_append]; rfl
+  have hmid : ((91 :: (k ++ 58 :: v) ++ [93]).drop 1).dropLast = k ++ 58 :: v := by
+    show ((k ++ 58 :: v) ++ [93]).dropLast = k ++ 58 :: v
+    exact List.dropLast_concat
+  rw [hl]
+  simp only [decodeHeader, hlen, hlast, hmid, cut_append k v 58 hc]
+  simp [hk]
+
 end Pandora.Proofs.C09
